@@ -194,6 +194,8 @@ func s1Probes(rng *vkit.Rng, lat []float64, is ...s1.Interval) []float64 {
 
 // regression inputs (run first on every tier): known finding, s1.Interval.Expanded returns a
 // single point when Length + 2*margin + 2*dblEpsilon evaluates to one ulp below 2*pi
+var knownExpandedReports int
+
 func s1ExpandedRegression(c *vkit.Collector) {
 	for _, w := range [][3]uint64{
 		{0xc008000000000000, 0x3ff0000000000001, 0x3ff243f6a8885a2e},
@@ -351,6 +353,10 @@ func runC19s1(c *vkit.Collector, rng *vkit.Rng, budget int) {
 					kind := "s1.Expanded"
 					if gv > vkit.Ulps(2*math.Pi, -2) {
 						kind = "s1.Expanded.guard-one-ulp-below-2pi"
+						knownExpandedReports++
+						if knownExpandedReports > 3 {
+							continue // the known finding must not crowd out other kinds (the collector keeps 20)
+						}
 					}
 					c.Violate(kind, "Expanded by a non-negative margin loses a point", map[string]interface{}{"type": "s1", "a": []float64{a.Lo, a.Hi}, "margin": mg, "p": p, "bits": []string{s1Bits(a), fmt.Sprintf("%x", math.Float64bits(mg)), fmt.Sprintf("%x", math.Float64bits(p))}})
 				}
